@@ -33,6 +33,7 @@ Conforms(o) ==
   /\ o.out.kill_ms <= 1000                                 \* a later Kill returns promptly
   /\ o.out.exited_after_kill
   /\ ~o.out.tmp_present_after_kill                         \* and removes the custom runner's socket directory
+  /\ o.out.other_ok                                        \* ... its own, not that of another client sharing the socket configuration
 
 TInit == i = 1 /\ bad = 0 /\ line = L(Obs[1]) /\ cfg = C(Obs[1]) /\ out = Err /\ decided = FALSE
 TNext ==
